@@ -421,12 +421,15 @@ def check(ctx):
     reduced = None
     if factor >= 2.5:
         workers = 3
-    if factor >= 4.0 and ctx.quick():
+    if factor >= 8.0 and ctx.quick():
+        reduced = "speed factor %.1f: quick tier reduced to 5 stress / 2 phase / 4 policy / 1 fragment / 1 TSan runs" % factor
+        cases, phases, policy, frag = cases[:5], phases[:2], policy[::3], frag[:1]
+    elif factor >= 4.0 and ctx.quick():
         reduced = "speed factor %.1f: quick tier reduced to 8 stress / 3 phase / 6 policy / 2 fragment runs" % factor
         cases, phases, policy, frag = cases[:8], phases[:3], policy[::2], frag[:2]
 
     texe = None
-    tsan_cases = cases[:2] if ctx.quick() else cases[:12]
+    tsan_cases = (cases[:1] if factor >= 8.0 else cases[:2]) if ctx.quick() else cases[:12]
     try:
         texe = vlib.build_harness("vdrv_threads", ["vdrv_threads.c"], wraps=WRAPS, variant="tsan")
     except vlib.BuildError as e:
